@@ -210,7 +210,11 @@ def gen(rnd, sid, mode=None, features=None, tank_bias=False):
         if valves and tanks and rnd.random() < 0.5:
             v = rnd.choice(valves)
             s["cctl"].append({"node": tanks[0]["name"], "attr": "level", "rel": ">", "thr": rgrid(rnd, tanks[0]["minl"] + 1, tanks[0]["maxl"] - 1, 0.25),
-                              "link": v["name"], "what": "setting", "val": v["setting"] * 0.5, "prio": 3})
+                              "link": v["name"], "what": "setting", "val": v["setting"] * 0.5, "prio": rnd.choice([3, 1, 5])})
+            if rnd.random() < 0.5:
+                # ... and a control that CLOSES the same valve, with its own priority: whichever has the higher priority wins
+                s["cctl"].append({"node": tanks[0]["name"], "attr": "level", "rel": ">", "thr": rgrid(rnd, tanks[0]["minl"] + 1, tanks[0]["maxl"] - 1, 0.25),
+                                  "link": v["name"], "what": "status", "val": 0, "prio": rnd.choice([2, 3, 4])})
     return s
 
 
